@@ -91,7 +91,7 @@ def after_failure(cases, seed, k):
     for c in r.sample(honest, min(k, len(honest))):
         split = next(e for e in c if e["ev"] == "Split")
         n, t = split["n"], split["t"]
-        steps = []
+        steps, extras = [], []
         for e in c:
             if e["ev"] == "Combine":
                 for _ in range(r.choice([1, 1, 2])):
@@ -101,6 +101,18 @@ def after_failure(cases, seed, k):
                     sub = {"kind": kind, "pos": pos, "arg": r.choice([0, 1]) if kind == "junk" else 0}
                     steps.append({"ev": "Combine", "S": S1, "sub": sub})
             steps.append(dict(e))
+            if e["ev"] == "Combine" and e["sub"]["kind"] == "none" and r.random() < 0.7:
+                # ... and FOLLOWED by combinations of the very same partial signatures (same subset, same message) in which
+                # one is filed under another index / comes from another share: what the honest combination left behind in
+                # the process must not answer for them
+                S0 = list(e["S"])
+                for _ in range(r.choice([1, 2])):
+                    pos = r.choice(S0)
+                    free = [j for j in range(1, n + 2) if j not in S0]
+                    kind = r.choice(["index", "index", "share"])
+                    arg = r.choice(free) if kind == "index" else r.choice([j for j in range(0, n + 1) if j != pos])
+                    extras.append({"ev": "Combine", "S": S0, "sub": {"kind": kind, "pos": pos, "arg": arg}})
+        steps += extras     # at the end: a Replay step belongs right behind its honest combination
         out.append(decorate(steps, seeded(r), r.choice(["csprng", "seeded"]), seeded(r)))
     return out
 
